@@ -118,7 +118,7 @@ def run_program(prog: list[dict]) -> list[dict] | None:
                 obs = project(mgx, npx, order, want_np=(e_np == "none"))
             except OutOfModel:
                 return None
-            lines.append({"stmt": s, "obs": obs, "exc": e_mg})
+            lines.append({"stmt": s, "obs": obs, "exc": e_mg, "exc_np": e_np})
             if e_mg != "none":
                 break
         return lines
